@@ -1109,17 +1109,17 @@ def run(chk):
     for n in (1, 2, 3):
         for p in graph_programs(n, all_graphs(n)):
             progs.append(("graph%d" % n, p))
-    n4 = 350 if quick else 6000
+    n4 = 350 if quick else 3000
     pairs4 = [(i, j) for i in range(4) for j in range(4)]
     for _ in range(n4):
         dens = rng.choice([0.1, 0.2, 0.3, 0.5])
         progs.append(("graph4", graph_programs(4, [{p for p in pairs4 if rng.random() < dens}])[0]))
     if not quick:
         pairs6 = [(i, j) for i in range(6) for j in range(6)]
-        for _ in range(3000):
+        for _ in range(1500):
             dens = rng.choice([0.05, 0.1, 0.2])
             progs.append(("graph6", graph_programs(6, [{p for p in pairs6 if rng.random() < dens}])[0]))
-    for _ in range(650 if quick else 12000):
+    for _ in range(650 if quick else 5000):
         progs.append(("random", Gen(rng, rng.randint(1, 6)).program()))
     plist = [p for _, p in progs]
 
@@ -1173,7 +1173,7 @@ def run(chk):
             fails.append(f)
 
     # ---- emission: static-str folding and numeric/bool const items
-    fprogs = fold_programs(rng, 200 if quick else 3000)
+    fprogs = fold_programs(rng, 200 if quick else 1500)
     fimpl = run_impl(binary, fprogs, emit=True)
     fterms = ["[" + "; ".join("(%d, %s)" % (n, coq_expr(e)) for n, _, e in p) + "]" for p in fprogs]
     fmodel = vlib.coq_eval(REQ, "sdecls", "render_fold", fterms, shard=150, tag="c06fold") if model_ok else None
@@ -1218,7 +1218,7 @@ def run(chk):
             corr_bad.append({"program": src_prog(prog), "why": "concat! folding differs", "model": fmodel[i], "impl": rows})
 
     # numeric / bool / tuple const items: emitted Rust const expression evaluates to the run-time value
-    nprogs = [p for k, p in progs if k == "random"][: (300 if quick else 3000)]
+    nprogs = [p for k, p in progs if k == "random"][: (300 if quick else 2000)]
     nimpl = run_impl(binary, nprogs, emit=True)
     stats.update({"emit_items_evaluated": 0, "emit_items_with_nonconst_call": 0, "emit_rejected": 0})
     for prog, out in zip(nprogs, nimpl):
@@ -1307,7 +1307,7 @@ class BuildGen:
             return lit("float", fbits(r.choice([0.0, 0.5, 1.0, 1.5, 2.0, 2.5, 3.25, 10.0, 100.125, 0.1])))
         if ty == "bool":
             return lit("bool", r.random() < 0.5)
-        return lit("str", r.choice([x for x in STR_POOL if "\\" not in x]))
+        return lit("str", r.choice([x for x in STR_POOL if "\\" not in x and "\n" not in x]))
 
     def expr(self, ty, k, depth):
         r = self.rng
